@@ -28,20 +28,25 @@ func init() {
 	mk := func(id string, rules map[string]bool, rule string, need []string) {
 		fw.Register(&fw.Property{
 			ID: id, Level: "exploration", Rule: rule,
+			// cases: [0, base) random histories, [base, base+enum) small-scope enumeration (c07enum.go),
+			// then for C08 one export-cap case (> 20 000 retained records through an export/import)
 			Cases: func(tier string) int {
-				n := 128
+				n := 128 + regEnumQuick
 				if tier == "thorough" {
-					n = 4000
+					n = 4000 + regEnumThorough()
 				}
 				if id == "C08" {
-					n++ // the last case: > 20 000 retained records carried through an export/import
+					n++
 				}
 				return n
 			},
 			Run: func(c *fw.Ctx) {
-				if id == "C08" && ((c.Tier == "thorough" && c.Case == 4000) || (c.Tier != "thorough" && c.Case == 128)) {
+				base, enum := 128, regEnumQuick
+				if c.Thorough() {
+					base, enum = 4000, regEnumThorough()
+				}
+				if id == "C08" && c.Case == base+enum {
 					c15CapCase(c, func(rule string) bool { return rule == "export-cap-counters" || rule == "export-cap-continuation" })
-					c.Count("prunes", 0)
 					return
 				}
 				runRegistryHistory(c, id, rules)
@@ -62,7 +67,8 @@ func init() {
 func runRegistryHistory(c *fw.Ctx, prop string, rules map[string]bool) {
 	r := c.Rng
 	o := RandOptions(r)
-	if (prop == "C08" && r.Chance(50)) || (prop == "C07" && r.Chance(40)) { // tiny limits make pruning frequent
+	isEnum := (c.Thorough() && c.Case >= 4000) || (!c.Thorough() && c.Case >= 128)
+	if isEnum || (prop == "C08" && r.Chance(50)) || (prop == "C07" && r.Chance(40)) { // tiny limits make pruning frequent
 		o.Wrk.DefaultStorageLimit, o.Wrk.MaxStorageLimit = 1, uint64(r.Range(1, 4))
 		o.Beacon.DefaultStorageLimit, o.Beacon.MaxStorageLimit = uint64(r.Range(1, 2)), uint64(r.Range(2, 5))
 	}
@@ -171,6 +177,30 @@ func runRegistryHistory(c *fw.Ctx, prop string, rules map[string]bool) {
 	}
 	e.Monitors = append(e.Monitors, stat)
 
+	enumBase := 128
+	if c.Thorough() {
+		enumBase = 4000
+	}
+	if idx := c.Case - enumBase; idx >= 0 {
+		seq := regEnumSeq(c, idx)
+		e.tracef("registry enumeration: %v", seq)
+		driveRegEnum(c, e, g, seq)
+		if e.Halted != "" {
+			c.Count("halted_histories", 1)
+		}
+		for _, m := range []*RegistryModel{rm.Wrk, rm.Beacon} {
+			for _, en := range m.Entries {
+				c.Count("prunes", int64(en.Pruned))
+			}
+		}
+		c.Count("point_queries", int64(rm.Evals))
+		c.Count("txs", int64(e.NTx))
+		c.Nontrivial()
+		if idx < 2 {
+			c.Sample(map[string]interface{}{"enumeration_sequence": seq, "trace_tail": e.TraceTail(25)})
+		}
+		return
+	}
 	nBlocks := r.Range(30, 50)
 	probes := 0
 	// a fifth of the histories move, at some block boundary, to a fresh chain initialised from an export
